@@ -12,7 +12,7 @@
 (*            (a failure is a VIOLATION)                                    *)
 (*   Agree* : the observation equals what the code-shaped model predicts    *)
 (*            (a failure alone is model DRIFT, not a violation)             *)
-EXTENDS HsmsDecoder, Json
+EXTENDS HsmsDecoder, Json, ControlMsg
 CONSTANT ChunkSize
 Trace == ndJsonDeserialize("trace.ndjson")
 VARIABLE l
@@ -119,6 +119,39 @@ PropC07(e) == e.ev = "alloc" =>
    /\ e.outcome = "returned"                       \* no panic escapes, no process abort
    /\ e.alloc_kb <= AllocBoundKB(e.len)
 
+\* ------------------------------------------------------------------ C14: control messages
+CtorKeys == {"selectreq", "selectrsp", "deselectreq", "deselectrsp", "linktestreq", "linktestrsp", "separatereq", "rejectreq"}
+KindOfKey(k) == CASE k = "selectreq" -> "select.req" [] k = "selectrsp" -> "select.rsp" [] k = "deselectreq" -> "deselect.req"
+                  [] k = "deselectrsp" -> "deselect.rsp" [] k = "linktestreq" -> "linktest.req" [] k = "linktestrsp" -> "linktest.rsp"
+                  [] k = "separatereq" -> "separate.req" [] k = "rejectreq" -> "reject.req"
+\* a control message of SType 0 cannot be built through the API; what its Type() says is left free
+TypeMatches(t, ptype, stype) == t = TypeOf(ptype, stype) \/ (ptype = 0 /\ stype = 0 /\ t = "undefined")
+CtorBytes(kind, sid, sys, code) ==
+   CASE kind = "select.req" -> SelectReq(sid, sys) [] kind = "select.rsp" -> SelectRsp(SelectReq(sid, sys), code)
+     [] kind = "deselect.req" -> DeselectReq(sid, sys) [] kind = "deselect.rsp" -> DeselectRsp(DeselectReq(sid, sys), code)
+     [] kind = "linktest.req" -> LinktestReq(sys) [] kind = "linktest.rsp" -> LinktestRsp(LinktestReq(sys))
+     [] kind = "separate.req" -> SeparateReq(sid, sys) [] kind = "reject.req" -> RejectReq(sid, 0, 9, sys, code)
+PropC14(e) ==
+  \* TLC -> Go: every constructor call of the case table gives the bytes and the type the specification demands
+  /\ e.ev = "ctrlcase" => \A k \in CtorKeys : e.real[k].bytes = e.want[k] /\ e.real[k].type = KindOfKey(k)
+  \* Type() over all (PType, SType) pairs
+  /\ e.ev = "typeivl" => \A key \in e.a..e.b : TypeMatches(e.type, key \div 256, key % 256)
+  \* every session id: the two session-id bytes follow the argument, nothing else depends on it
+  /\ e.ev = "sidivl" => /\ e.sidok /\ e.a = 0 /\ e.b = 65535
+                         /\ e.rest = Wire(CtorBytes(e.kind, IF e.kind \in {"linktest.req", "linktest.rsp"} THEN 65535 ELSE 0, e.sys, e.code))
+  \* responses answer only their own kind of request, and echo it
+  /\ e.ev = "pairing" => /\ e.refused = (e.reqtype # RequestKindFor(e.rsp))
+                          /\ ~e.refused => LET rq == SubSeq(e.req, 5, 14) IN
+                                /\ e.type = e.rsp
+                                /\ e.bytes = Wire(CASE e.rsp = "select.rsp" -> SelectRsp(rq, e.status)
+                                                   [] e.rsp = "deselect.rsp" -> DeselectRsp(rq, e.status)
+                                                   [] e.rsp = "linktest.rsp" -> LinktestRsp(rq))
+  \* any header: bytes, type, decode (equal message iff the SType is defined), no aliasing
+  /\ e.ev = "ctrlraw" => /\ e.bytes = Wire(e.hdr) /\ e.again = e.bytes
+                          /\ TypeMatches(e.type, e.hdr[5], e.hdr[6])
+                          /\ e.ok = (TypeOf(e.hdr[5], e.hdr[6]) \in Kinds) /\ e.pok = e.ok
+                          /\ e.ok => (e.msg2.kind = "ctrl" /\ e.msg2.hdr = e.hdr /\ e.type2 = e.type /\ e.same2)
+
 \* ------------------------------------------------------------------ model agreement (drift only)
 AgreeDecoder(e) == e.ev \in {"rt", "dec"} =>
    LET r == Run(e.bytes) IN
@@ -132,6 +165,7 @@ InvC03 == l > 0 => PropC03(E)
 InvC13 == l > 0 => PropC13(E)
 InvAgreeDecoder == l > 0 => AgreeDecoder(E)
 InvC07 == l > 0 => PropC07(E)
+InvC14 == l > 0 => PropC14(E)
 InvHdr == l > 0 => PropHdr(E)
 InvBig == l > 0 => PropBig(E)
 =====================================================================
